@@ -88,10 +88,15 @@ func NewSnapshot() *Snapshot {
 	return &Snapshot{P: map[string]*PRow{}, C: map[string]*CRow{}, T: map[string]*TRow{}, L: map[string]*LRow{}, S: map[string]*SRow{}}
 }
 
+// Querier is *sql.DB or *sql.Tx.
+type Querier interface {
+	Query(query string, args ...any) (*sql.Rows, error)
+}
+
 // ReadSnapshot reads the five tables completely through db (an observer
 // connection). Duplicate ids (which the UNIQUE constraints forbid) are
 // reported as an error.
-func ReadSnapshot(db *sql.DB) (*Snapshot, error) {
+func ReadSnapshot(db Querier) (*Snapshot, error) {
 	s := NewSnapshot()
 	rows, err := db.Query(`SELECT id, sort_id, state, param_headers, param_data, value_headers, value_data, timeout, idempotency_key_for_create, idempotency_key_for_complete, tags, created_on, completed_on FROM promises`)
 	if err != nil {
